@@ -645,3 +645,6 @@ VARIANTS += [
     V("C17", "own nested classes not among the defined names again", GEN,
       "        already_defined_names.update(inner_class.name for inner_class in class_.classes if inner_class.is_public)\n", "", "C17.OWN-FIRST"),
 ]
+VARIANTS += [
+    V("C10", "relocated module looked up by its last name again", "stubs_generator/_generate_stubs.py", "            qname=module.id.replace(\"/\", \".\"),\n            is_module=True,", "            qname=\"\",\n            is_module=True,", "C10.WRITE-MODE"),
+]
